@@ -424,6 +424,7 @@ def run(ctx):
     # asked with another name than it is keyed by can no longer be found by its own (unique, stored) name.  (Seed S8-C20.)
     from .C13 import _local_map_keys_agree
     _local_map_keys_agree(ctx, rid="R20.11")
+    module_def_strings_are_nullable(ctx)
 
     # ------------------------------------------------------------- R20.7 = R13.2
     ctx.rule("R20.7", "by-name lookups are exact only if the name tables are rebuilt after every load: merge_from resets the freshness word after its last mutation, lookup() refreshes exactly the stale table (= R13.2)")
@@ -785,3 +786,43 @@ def neutral_answers_of_the_placeholder(ctx):
     if skipped:
         ctx.info("R20.10 not judged (body is not a single evaluable return): " + "; ".join(skipped[:12]) + (" ..." if len(skipped) > 12 else ""))
     ctx.floor("R20.10", "parameterless integer/bool accessors evaluated", n, 40)
+
+
+def module_def_strings_are_nullable(ctx):
+    """R20.12: the `const char *` fields of an InterrogateModuleDef (library_name, library_hash_name, module_name,
+    database_filename) come from the caller of interrogate_request_module(); each may be null (an anonymous module, a
+    module without a database file).  Building a std::string / Filename from one - a map key, a return value - is done
+    only behind a test that THE SAME field is not null.  (F-C20d: request_module() tested library_name and keyed
+    _modules_by_hash with library_hash_name.)"""
+    from . import gates as G
+    db = ctx.db
+    ctx.rule("R20.12", "in the database library a std::string or Filename is constructed from an InterrogateModuleDef `const char *` field only behind `<same field> != nullptr`")
+    n = 0
+    for f in db.functions:
+        if "/interrogatedb/" not in f.file:
+            continue
+        for c in f.walk():
+            if c.get("k") != "ctor" or not any(t in (c.get("f") or "") for t in ("basic_string::basic_string", "Filename::Filename")) or not c.get("a"):
+                continue
+            a0 = strip_casts(peel(c["a"][0]))
+            if not (a0 is not None and a0.get("k") == "mem" and (a0.get("n") or "").startswith("InterrogateModuleDef::") and "char" in (a0.get("t") or "")):
+                continue
+            n += 1
+            key = show(a0).replace(" ", "")
+
+            def nonnull(atom, truth, key=key):
+                ca = G.cmp_atom(atom)
+                if ca:
+                    op, u, v = ca
+                    op = op if truth else G.NEG[op]
+                    for p_, q_ in ((u, v), (v, u)):
+                        if p_ is not None and q_ is not None and show(p_).replace(" ", "") == key and (strip_casts(peel(q_)) or {}).get("k") == "nullp":
+                            return op == "!="
+                    return False
+                a = strip_casts(peel(atom)) if atom is not None else None
+                return a is not None and show(a).replace(" ", "") == key and truth
+            e = G.edges_where(f, nonnull)
+            ok = bool(e) and G.gated(f, c, e)
+            ctx.ob("R20.12", "%s|string(%s)|behind-non-null" % (f.name, key), ok, f.loc(c),
+                   "a string is built from %s %s a test that it is not null" % (key, "behind" if ok else "WITHOUT"))
+    ctx.floor("R20.12", "strings built from module-definition fields in the database library", n, 2)
